@@ -393,6 +393,13 @@ fn inert_element_to_tokens(
                     Node::Element(node) => {
                         let self_closing = is_self_closing(node);
                         let el_name = node.name().to_string();
+                        // `<use_>` is the keyword-free spelling of SVG `<use>`: the builder
+                        // path renders `svg::use()` for both
+                        let el_name = if el_name == "use_" {
+                            "use".to_string()
+                        } else {
+                            el_name
+                        };
                         let escape = escapes_children(&el_name);
 
                         // opening tag
